@@ -14,5 +14,7 @@ if action.startswith("touch:"):
         f.write("touched\n")
     sys.exit(0)
 if action == "sleep":
-    time.sleep(30)
+    # longer than the limit the harness sets (3 s), shorter than in-toto's default limit (10 s):
+    # a time limit that is not passed on (e.g. into a sublayout) lets this command finish
+    time.sleep(7)
 sys.exit(0)
